@@ -375,6 +375,22 @@ func GenesisCase(rec *Recorder, bls *BLSTable, st *Stats, r *hx.Rng, sp *common.
 				dds[i].Pubkey = badPubkey(r)
 			}
 		}
+	case "zeroamount":
+		// a zero-amount deposit of a NEW key with a valid proof of possession registers the validator (balance 0); ordinary
+		// deposits follow; later a top-up of that key whose signature does not verify (never looked at for top-ups)
+		zk := KeyNum(n + 1)
+		pos := 1 + r.Intn(len(dds)-1)
+		z := mk(zk, 0)
+		rest := append([]common.DepositData{z}, dds[pos:]...)
+		dds = append(dds[:pos:pos], rest...)
+		top := z
+		top.Amount = sp.MAX_EFFECTIVE_BALANCE
+		if r.Bool() {
+			top.Amount = sp.MIN_DEPOSIT_AMOUNT
+		}
+		dom := common.ComputeDomain(common.DOMAIN_DEPOSIT, sp.GENESIS_FORK_VERSION, common.Root{})
+		top.Signature = bls.Sign1(StrayKeyBase+zk, common.ComputeSigningRoot(top.MessageRoot(), dom))
+		dds = append(dds, top)
 	case "toofew":
 		k := r.Intn(int(sp.SLOTS_PER_EPOCH))
 		dds = dds[:k]
@@ -408,4 +424,4 @@ func GenesisCase(rec *Recorder, bls *BLSTable, st *Stats, r *hx.Rng, sp *common.
 	}
 }
 
-var GenesisKinds = []string{"valid", "amounts", "topups", "badsig", "badpubkey", "toofew", "inactive", "early", "badproof"}
+var GenesisKinds = []string{"valid", "amounts", "topups", "badsig", "badpubkey", "toofew", "inactive", "early", "badproof", "zeroamount"}
